@@ -463,6 +463,12 @@ class HttpProxyPlugin(HttpProtocolHandlerPlugin):
                         assert self.pipeline_request is not None
                         r = plugin.handle_client_request(self.pipeline_request)
                         if r is None:
+                            # Plugin dropped this request only, requests
+                            # which follow need a fresh parser.
+                            remaining = self.pipeline_request.buffer
+                            self.pipeline_request = None
+                            if remaining is not None:
+                                self.on_client_data(remaining)
                             return
                         self.pipeline_request = r
                     assert self.pipeline_request is not None
